@@ -36,6 +36,9 @@ def variants(name, lvl):
         yield ('rule', None, lit), []
         yield ('rule', None, ('choice', lit, ('super', 'X'))), []
         yield ('rule', None, ('choice', ('ref', 'N%d' % lvl), ('super', 'X'))), [('N%d' % lvl, ('rule', None, lit))]
+        # unlike the one-token base rule this override can fail after consuming input: the inherited callers
+        # ((X | Y)* in start, [p, X] in T) must still restore the position
+        yield ('rule', None, ('left', ('re', '[ab]'), lit)), []
     if name == 'Y':
         # an inherited rule passed as a bare argument from the derived grammar
         yield ('class', None, [('y', False, ('call', 'T', [('ref', 'X')], []))]), []
